@@ -133,16 +133,17 @@ def shift_pair(ck, F, rule="SHIFT-PAIR"):
     band and shifts the rest by -count (operand provenance and comparison operands only)."""
     ROW = "ironcalc_base::types::Row"
     for fn, sign, count_name, pos_name in (("insert_rows", "Add", "row_count", "row"), ("delete_rows", "Sub", "row_count", "row")):
-        b = ck.need(F.one, "model::Model::" + fn)
+        b0 = ck.need(F.one, "model::Model::" + fn)
         found = []
-        for bi, si, s in b.stmts():
-            p = b.resolve_place(s["p"], through_named=False) if place_proj(s["p"]) else s["p"]
-            fs = [e for e in place_proj(p) if e[0] == "f"]
-            if fs and fs[-1][3] == ROW and fs[-1][2] == "r" and s["rv"]["k"] == "use":
-                sr = sources(b, s["rv"]["o"])
-                found.append((bi, si, sr))
-        ck.ob(rule, "%s|one-shift-site" % fn, len(found) == 1, "%s: expected one store into Row.r, found %d" % (fn, len(found)), b.file, b.line)
-        for bi, si, sr in found:
+        for b in unit_bodies(F, b0):
+            for bi, si, s in b.stmts():
+                p = b.resolve_place(s["p"], through_named=False) if place_proj(s["p"]) else s["p"]
+                fs = [e for e in place_proj(p) if e[0] == "f"]
+                if fs and fs[-1][3] == ROW and fs[-1][2] == "r" and s["rv"]["k"] == "use":
+                    sr = sources(b, s["rv"]["o"])
+                    found.append((b, bi, si, sr))
+        ck.ob(rule, "%s|one-shift-site" % fn, len(found) == 1, "%s: expected one store into Row.r, found %d" % (fn, len(found)), b0.file, b0.line)
+        for b, bi, si, sr in found:
             f, l = b.loc(bi, si)
             ok = ("arith", sign) in sr and ("param", count_name) in sr and ("field", ROW, "r") in sr and \
                 not [x for x in sr if x[0] == "arith" and x[1] != sign]
@@ -163,6 +164,16 @@ def shift_pair(ck, F, rule="SHIFT-PAIR"):
             want = {pos_name} if fn.startswith("insert") else {pos_name, count_name}
             ck.ob(rule, "%s|shift-guard-uses %s" % (fn, "+".join(sorted(want))), want <= guard_params,
                   "%s shifts a row descriptor under a guard comparing r with %s, expected %s" % (fn, sorted(guard_params), sorted(want)), f, l)
+
+
+def unit_bodies(F, b):
+    """The body of a function followed by the bodies of the closures written in it (a `for` loop rewritten as an
+    iterator chain moves its statements there)."""
+    out = [b]
+    for p in sorted(F.body_paths()):
+        if p != b.path and F.heads[p].get("root") == b.path:
+            out.append(F.body(p))
+    return out
 
 
 def reentry(ck, F, rule="RE-ENTRY"):
@@ -883,46 +894,58 @@ def shift_lower_bounds(ck, F, rule="GRID-GUARD"):
              ("delete_rows", ("ironcalc_base::types::Row", "r"), "row_count", "row", lambda k: 0, "Sub"),
              ("insert_columns", ("ironcalc_base::types::Col", "min"), "column_count", "column", lambda k: k, "Add"))
     for fn, fld, cnt, pos, off, sign in TABLE:
-        b = ck.need(F.one, "model::Model::" + fn)
-        names = {b.local_name(i): i for i in range(1, b.nargs + 1)}
+        b0 = ck.need(F.one, "model::Model::" + fn)
+        names = {b0.local_name(i): i for i in range(1, b0.nargs + 1)}
         if cnt not in names or pos not in names:
-            ck.ob(rule, "%s|params" % fn, False, "%s: parameters %s / %s not found" % (fn, cnt, pos), b.file, b.line)
+            ck.ob(rule, "%s|params" % fn, False, "%s: parameters %s / %s not found" % (fn, cnt, pos), b0.file, b0.line)
             continue
-        stores = []
-        for bi, si, s in b.stmts():
-            if not place_proj(s["p"]) or s["rv"]["k"] != "use":
-                continue
-            p = b.resolve_place(s["p"], through_named=False)
-            pj = place_proj(p)
-            if pj and pj[-1][0] == "f" and (pj[-1][3], pj[-1][2]) == fld:
-                sr = sources(b, s["rv"]["o"])
-                if ("arith", sign) in sr and ("param", cnt) in sr:
-                    stores.append((bi, si, s))
-        ck.ob(rule, "%s|shift-stores" % fn, len(stores) >= 1, "%s: no shifting store into %s.%s found" % (fn, fld[0].rsplit("::", 1)[-1], fld[1]), b.file, b.line)
-        pos_t = "_%d" % names[pos]
-        for k in (1, 2, 3):
-            A = zones.Analysis(b, P, F, assume={names[cnt]: k})
-            for n, (bi, si, s) in enumerate(stores, 1):
-                ok, checked = True, 0
-                for kk, zin in A.pstate_in.get(bi, {}).items():
-                    z = zin.copy()
-                    z.close()
-                    for j, st in enumerate(b.blocks[bi]["s"]):
-                        if j == si:
-                            break
-                        A.stmt(z, st)
-                    if z.bottom:
-                        continue
-                    checked += 1
-                    v = A.lin(z, s["rv"]["o"], "i32")
-                    # pos + off(k) <= v
-                    if v is None or not z.entails(pos_t, v[0], v[1] - off(k)):
-                        ok = False
-                f, l = b.loc(bi, si)
-                ck.ob(rule, "%s|count=%d|shift-store#%d lower bound" % (fn, k, n), ok and checked > 0,
-                      "%s (%s = %d) can store a shifted %s.%s below %s%s: a descriptor is moved although it lies before the edit position, "
-                      "or by the wrong amount" % (fn, cnt, k, fld[0].rsplit("::", 1)[-1], fld[1], pos, (" + %d" % off(k)) if off(k) else ""),
-                      f, l, sample={"fn": fn, "count": k, "states": checked})
+        units = []
+        for b in unit_bodies(F, b0):
+            stores = []
+            for bi, si, s in b.stmts():
+                if not place_proj(s["p"]) or s["rv"]["k"] != "use":
+                    continue
+                p = b.resolve_place(s["p"], through_named=False)
+                pj = place_proj(p)
+                if pj and pj[-1][0] == "f" and (pj[-1][3], pj[-1][2]) == fld:
+                    sr = sources(b, s["rv"]["o"])
+                    if ("arith", sign) in sr and ("param", cnt) in sr:
+                        stores.append((bi, si, s))
+            if stores:
+                units.append((b, stores))
+        ck.ob(rule, "%s|shift-stores" % fn, len(units) >= 1, "%s: no shifting store into %s.%s found" % (fn, fld[0].rsplit("::", 1)[-1], fld[1]), b0.file, b0.line)
+        n = 0
+        for b, stores in units:
+            for k in (1, 2, 3):
+                if b is b0:
+                    A = zones.Analysis(b, P, F, assume={names[cnt]: k})
+                    pos_t = "_%d" % names[pos]
+                else:
+                    # the store sits in a closure: the parameters are its captured variables
+                    A = zones.Analysis(b, P, F, assume={"upvar:" + cnt: k})
+                    pos_t = A.term_of_place(b._upvars[pos], "i32") if pos in b._upvars else None
+                for m, (bi, si, s) in enumerate(stores, 1):
+                    ok, checked = pos_t is not None, 0
+                    for kk, zin in A.pstate_in.get(bi, {}).items():
+                        z = zin.copy()
+                        z.close()
+                        for j, st in enumerate(b.blocks[bi]["s"]):
+                            if j == si:
+                                break
+                            A.stmt(z, st)
+                        if z.bottom:
+                            continue
+                        checked += 1
+                        v = A.lin(z, s["rv"]["o"], "i32")
+                        # pos + off(k) <= v
+                        if v is None or pos_t is None or not z.entails(pos_t, v[0], v[1] - off(k)):
+                            ok = False
+                    f, l = b.loc(bi, si)
+                    ck.ob(rule, "%s|count=%d|shift-store#%d lower bound" % (fn, k, n + m), ok and checked > 0,
+                          "%s (%s = %d) can store a shifted %s.%s below %s%s: a descriptor is moved although it lies before the edit position, "
+                          "or by the wrong amount" % (fn, cnt, k, fld[0].rsplit("::", 1)[-1], fld[1], pos, (" + %d" % off(k)) if off(k) else ""),
+                          f, l, sample={"fn": fn, "count": k, "states": checked})
+            n += len(stores)
 
 
 def descriptor_order(ck, F, rule="GRID-GUARD"):
